@@ -7,6 +7,7 @@ python3 gen/constants.py
 [ -f gen/sites.py ] && python3 gen/sites.py
 python3 gen/partial.py
 python3 gen/api.py
+python3 gen/alts.py
 python3 gen/dict.py
 (cd lean && lake build TypedPathVerif tpdriver)
 (cd harness && CARGO_TARGET_DIR="$PWD/target-std" cargo build --release --offline)
